@@ -140,10 +140,12 @@ class Cli:
 
     @property
     def version_string(self):
+        # The header is a raw triple-quoted string: keep the echoed command from terminating it
+        command = " ".join(sys.argv).replace('"""', "'''")
         return (
             'r"""\n'
             f'generated by json2python-models v{VERSION} at {datetime.now().ctime()}\n'
-            f'command: {" ".join(sys.argv)}\n'
+            f'command: {command}\n'
             '"""\n'
         )
 
